@@ -2,6 +2,7 @@ package c11
 
 import (
 	"fmt"
+	"net/http"
 	"runtime"
 	"sort"
 	"strings"
@@ -88,12 +89,18 @@ var concModel = porcupine.Model{
 type concCase struct {
 	Prefill  int     `json:"prefilled_backends"` // added sequentially before the concurrent part (widens SetStrategy's copy window)
 	Strategy string  `json:"strategy"`
+	Health   env     `json:"health_checks"` // the health-check section the balancer runs under (every probe is answered 200)
 	Admins   [][]cop `json:"admin_scripts"`
 	Traffic  []int   `json:"traffic_requests_per_goroutine"`
 }
 
 func runConc(c concCase) (res porcupine.CheckResult, hist []porcupine.Operation, overlap bool, err error) {
-	s, _, e := newSys(c.Strategy, 0)
+	fn := lab.NewFakeNet()
+	// Helios's active prober uses the default transport: scripted as well while the case runs
+	oldDefault := http.DefaultTransport
+	http.DefaultTransport = fn.ProbeTransport()
+	defer func() { http.DefaultTransport = oldDefault }()
+	s, _, e := newSysEnv(c.Strategy, 0, c.Health, fn)
 	if e != nil {
 		return porcupine.Unknown, nil, false, e
 	}
@@ -201,12 +208,13 @@ func runConc(c concCase) (res porcupine.CheckResult, hist []porcupine.Operation,
 }
 
 func TestC11Concurrent(t *testing.T) {
-	sub := lab.Sub("reconfig-concurrent-linearizable", "rapid draws 2-4 admin scripts (<=6 ops over add/remove/set_strategy/list on names {a,b}, fresh address per add; 0-256 backends pre-registered so that a strategy switch takes long enough to overlap) and 2-6 traffic goroutines (2-5 requests); all run on real threads behind a spin barrier against one balancer; "+
+	sub := lab.Sub("reconfig-concurrent-linearizable", "rapid draws 2-4 admin scripts (<=6 ops over add/remove/set_strategy/list on names {a,b}, fresh address per add; 0-256 backends pre-registered so that a strategy switch takes long enough to overlap; health-check section drawn: active probes off/on (interval 2-600 s, timeout 1-10 s, 4 paths), passive checks off/on (threshold 1-5, window 1-60 s), every probe and proxied answer a 200) and 2-6 traffic goroutines (2-5 requests); all run on real threads behind a spin barrier against one balancer; "+
 		"the stamped history (<=40 operations) is checked with porcupine against the model {add appends (a duplicate may be refused), remove deletes every entry of the name, list equals the state, a request is served by a member - or by nobody iff the set is empty}; "+
 		"non-trivial = two admin operations on the same name, or a strategy switch and an add/remove, overlapped in time; histories porcupine cannot decide in 10 s are discarded and counted")
 	sub.NontrivialFloor(0.25)
 	lab.Check(t, sub, 400, 12000, func(rt *rapid.T) {
 		c := concCase{Strategy: rapid.SampledFrom(lab.Strategies).Draw(rt, "strategy"), Prefill: rapid.SampledFrom([]int{0, 0, 8, 64, 256}).Draw(rt, "prefill")}
+		c.Health = genEnv(rt)
 		seq := 0
 		na := rapid.IntRange(2, 4).Draw(rt, "admins")
 		for a := 0; a < na; a++ {
@@ -236,7 +244,7 @@ func TestC11Concurrent(t *testing.T) {
 		if err != nil {
 			rt.Fatalf("harness: %v", err)
 		}
-		labels := []string{c.Strategy}
+		labels := append([]string{c.Strategy}, c.Health.labels()...)
 		if res == porcupine.Unknown {
 			labels = append(labels, "porcupine-timeout-discarded")
 		}
@@ -247,7 +255,7 @@ func TestC11Concurrent(t *testing.T) {
 			for _, h := range hist {
 				lines = append(lines, fmt.Sprintf("[%d] %6dus-%6dus %+v -> %+v", h.ClientId, h.Call/1000, h.Return/1000, h.Input, h.Output))
 			}
-			rt.Fatalf("history is not linearizable w.r.t. the backend-set model (strategy %s):\n%s", c.Strategy, strings.Join(lines, "\n"))
+			rt.Fatalf("history is not linearizable w.r.t. the backend-set model (strategy %s, health checks %+v):\n%s", c.Strategy, c.Health, strings.Join(lines, "\n"))
 		}
 	})
 }
